@@ -284,6 +284,181 @@ pub fn gen_input(n: usize, rng: &mut ChaCha20Rng) -> Option<(V4, String)> {
     None
 }
 
+/// Inputs whose exact first quotient has ONE coefficient at distance `delta` (1e-9 .. 1e-7)
+/// from a half-integer, at production amplitude. The quotient of (F,G) = K (f,g) + R is K + q_R
+/// exactly (K integer, huge), so its fractional parts are those of q_R, which is computed here
+/// from the SMALL pair R in double precision (absolute error ~1e-14). R is steered: entries of
+/// R_F far from the target coefficient move it by tiny known weights, so a greedy digit-by-digit
+/// adjustment lands it on 1/2 - delta; every other coefficient is kept well away from a tie.
+/// The implementation under test sees |F|,|G| ~ 2^24, where its own floating-point quotient is
+/// only good to 1e-8 .. 1e-7: whether it rounds that coefficient up or down in its first pass
+/// is a coin flip, and the result must not depend on it.
+pub fn near_tie_input(n: usize, delta: f64, rng: &mut ChaCha20Rng) -> Option<(V4, String)> {
+    use crate::refs::ffs::{fft, ifft, C};
+    // tiny sparse (f,g)
+    let mut f = vec![0i64; n];
+    let mut g = vec![0i64; n];
+    for v in [&mut f, &mut g] {
+        for _ in 0..rng.gen_range(1..=3) {
+            v[rng.gen_range(0..n)] = if rng.gen() { 1 } else { -1 };
+        }
+    }
+    if f.iter().all(|&x| x == 0) || g.iter().all(|&x| x == 0) {
+        return None;
+    }
+    let terms = f.iter().filter(|&&x| x != 0).count().max(g.iter().filter(|&&x| x != 0).count()) as i64;
+    if f.iter().filter(|&&x| x != 0).count() + g.iter().filter(|&&x| x != 0).count() < 3 {
+        return None; // two monomials: f f* + g g* is a constant, no near ties exist
+    }
+    let tof = |v: &[i64]| v.iter().map(|&x| x as f64).collect::<Vec<f64>>();
+    let (fh, gh) = (fft(&tof(&f)), fft(&tof(&g)));
+    let d: Vec<f64> = (0..n).map(|k| fh[k].0 * fh[k].0 + fh[k].1 * fh[k].1 + gh[k].0 * gh[k].0 + gh[k].1 * gh[k].1).collect();
+    let dbg = std::env::var("VF_DEBUG_NT").is_ok();
+    if d.iter().any(|&x| x < 0.01) {
+        if dbg {
+            eprintln!("NT: ill-conditioned min d = {:e}", d.iter().cloned().fold(f64::INFINITY, f64::min));
+        }
+        return None; // badly conditioned: the double-precision side computation would be poor
+    }
+    let quotient = |rf: &[i64], rg: &[i64]| -> Vec<f64> {
+        let (a, b) = (fft(&tof(rf)), fft(&tof(rg)));
+        let q: Vec<C> = (0..n).map(|k| a[k].mul(fh[k].conj()).add(b[k].mul(gh[k].conj())).scale(1.0 / d[k])).collect();
+        ifft(&q)
+    };
+    // u = f*/D: response of the quotient to a unit change of R_F[0]
+    let u = ifft(&(0..n).map(|k| fh[k].conj().scale(1.0 / d[k])).collect::<Vec<C>>());
+    let mut rf: Vec<i64> = (0..n).map(|_| rng.gen_range(-3..=3)).collect();
+    let rg: Vec<i64> = (0..n).map(|_| rng.gen_range(-3..=3)).collect();
+    let i = rng.gen_range(0..n);
+    let weight = |j: usize| if i >= j { u[i - j] } else { -u[i + n - j] };
+    let target = 0.5 - delta;
+    let frac_to = |x: f64| {
+        // signed distance from x to the nearest number congruent to `target` modulo 1
+        let r = (target - x).rem_euclid(1.0);
+        if r > 0.5 {
+            r - 1.0
+        } else {
+            r
+        }
+    };
+    let mut used = vec![false; n];
+    let wmin = (0..n).map(|j| weight(j).abs()).filter(|&w| w >= 1e-13).fold(f64::INFINITY, f64::min);
+    for _round in 0..24 {
+        let q = quotient(&rf, &rg);
+        let r = frac_to(q[i]);
+        if r.abs() < 2e-11 || r.abs() < 40.0 * wmin {
+            break;
+        }
+        // the unused position whose weight is closest to |r|/8
+        let want = r.abs() / 8.0;
+        let mut best: Option<(usize, f64)> = None;
+        for j in 0..n {
+            let w = weight(j).abs();
+            if used[j] || w < 1e-13 {
+                continue;
+            }
+            let score = (w.ln() - want.ln()).abs();
+            if best.map(|b| score < b.1).unwrap_or(true) {
+                best = Some((j, score));
+            }
+        }
+        let (j, _) = best?;
+        used[j] = true;
+        let t = (r / weight(j)).round().clamp(-64.0, 64.0) as i64;
+        rf[j] += t;
+    }
+    // the weights do not always decay far enough for a digit-by-digit landing: finish with a
+    // meet-in-the-middle search over integer combinations of the four smallest unused weights
+    {
+        let q = quotient(&rf, &rg);
+        let r = frac_to(q[i]);
+        if r.abs() >= 2e-11 {
+            let mut cand: Vec<usize> = (0..n).filter(|&j| !used[j] && weight(j).abs() >= 1e-13).collect();
+            cand.sort_by(|&a, &b| weight(a).abs().partial_cmp(&weight(b).abs()).unwrap());
+            if cand.len() < 4 {
+                return None;
+            }
+            let js = [cand[0], cand[1], cand[2], cand[3]];
+            let w: Vec<f64> = js.iter().map(|&j| weight(j)).collect();
+            let tmax = 64i64;
+            let mut left: Vec<(f64, i64, i64)> = vec![];
+            for t0 in -tmax..=tmax {
+                for t1 in -tmax..=tmax {
+                    left.push((t0 as f64 * w[0] + t1 as f64 * w[1], t0, t1));
+                }
+            }
+            left.sort_by(|a, b| a.0.partial_cmp(&b.0).unwrap());
+            let mut best: (f64, [i64; 4]) = (r.abs(), [0; 4]);
+            for t2 in -tmax..=tmax {
+                for t3 in -tmax..=tmax {
+                    let need = r - (t2 as f64 * w[2] + t3 as f64 * w[3]);
+                    let pos = left.partition_point(|x| x.0 < need);
+                    for p in [pos.saturating_sub(1), pos.min(left.len() - 1)] {
+                        let e = (need - left[p].0).abs();
+                        if e < best.0 {
+                            best = (e, [left[p].1, left[p].2, t2, t3]);
+                        }
+                    }
+                }
+            }
+            for (k, &j) in js.iter().enumerate() {
+                rf[j] += best.1[k];
+            }
+        }
+    }
+    let q = quotient(&rf, &rg);
+    if frac_to(q[i]).abs() > (delta.abs() / 3.0).min(1e-10) {
+        if dbg {
+            eprintln!("NT: not converged: {:e}", frac_to(q[i]));
+        }
+        return None;
+    }
+    // no other coefficient near a tie
+    for (k, &x) in q.iter().enumerate() {
+        let dist = ((x - 0.5).rem_euclid(1.0)).min(1.0 - (x - 0.5).rem_euclid(1.0));
+        if k != i && dist < 1e-4 {
+            if dbg {
+                eprintln!("NT: another coefficient near a tie");
+            }
+            return None;
+        }
+    }
+    // (F,G) = K (f,g) + R with K huge
+    // the quotient as large as the domain allows: the rounding of the implementation's own
+    // double-precision quotient is coarsest there (ulp(2^23) = 1.9e-9)
+    let a = ((1i64 << 24) - 64) / terms - 8;
+    let k: Vec<i64> = (0..n).map(|_| rng.gen_range(-a..=a)).collect();
+    let kf = spec::negamul_z(&k, &f);
+    let kg = spec::negamul_z(&k, &g);
+    let cf: Vec<i64> = (0..n).map(|t| rf[t] + kf[t] as i64).collect();
+    let cg: Vec<i64> = (0..n).map(|t| rg[t] + kg[t] as i64).collect();
+    if cf.iter().chain(cg.iter()).any(|x| x.abs() >= 1 << 24) {
+        return None;
+    }
+    if dbg {
+        // what a double-precision FFT quotient (the crate's own transform) makes of this input
+        let c = |v: &[i64]| v.iter().map(|&x| (x as f64, 0.0)).collect::<Vec<(f64, f64)>>();
+        let (ff, gg, fcf, fcg) = (vh::cfft(&c(&f)), vh::cfft(&c(&g)), vh::cfft(&c(&cf)), vh::cfft(&c(&cg)));
+        let num: Vec<(f64, f64)> = (0..n)
+            .map(|k| {
+                let a = (fcf[k].0 * ff[k].0 + fcf[k].1 * ff[k].1, fcf[k].1 * ff[k].0 - fcf[k].0 * ff[k].1);
+                let b = (fcg[k].0 * gg[k].0 + fcg[k].1 * gg[k].1, fcg[k].1 * gg[k].0 - fcg[k].0 * gg[k].1);
+                let dd = ff[k].0 * ff[k].0 + ff[k].1 * ff[k].1 + gg[k].0 * gg[k].0 + gg[k].1 * gg[k].1;
+                ((a.0 + b.0) / dd, (a.1 + b.1) / dd)
+            })
+            .collect();
+        let qq = vh::cifft(&num);
+        let mut worst = 0.0f64;
+        for t in 0..n {
+            let e = qq[t].0 - (k[t] as f64 + q[t]);
+            worst = worst.max(e.abs());
+        }
+        let ei = qq[i].0 - (k[i] as f64 + q[i]);
+        eprintln!("NT: ok n={} delta={:e} min_d={:.3} float error at i = {:e}, worst = {:e}, computed frac dist to .5 = {:e}", n, delta, d.iter().cloned().fold(f64::INFINITY, f64::min), ei, worst, 0.5 - (qq[i].0 - qq[i].0.round()).abs());
+    }
+    Some(((f, g, cf, cg), format!("near-tie-{:e}-coefficient-{}", delta, i)))
+}
+
 // ---------------------------------------------------------------------------
 // the 30-bit prime field underneath babai_reduce_i32
 
@@ -490,6 +665,24 @@ pub fn synthetic(ctx: &Ctx, rep: &mut Report) {
             }
         }
     }
+    // near ties at production amplitude (see near_tie_input)
+    let deltas = [2e-10f64, 5e-10, 1e-9, 2e-9, 4e-9, 1.6e-8, -2e-10, -5e-10, -1e-9, -2e-9, -4e-9, -1.6e-8];
+    let reps = ctx.sz(64, 2000);
+    let r = par_for(deltas.len() * reps * 2, ncpu(), |job, rep| {
+        let n = if job % 2 == 0 { 1024 } else { 512 };
+        let dl = deltas[(job / 2) % deltas.len()];
+        let mut rng = rng_for(ctx.seed, &format!("c17-neartie-{}", job));
+        for _try in 0..6 {
+            if let Some((inp, class)) = near_tie_input(n, dl, &mut rng) {
+                check_input(&inp, &class, rep);
+                rep.count("near_tie_inputs", 1);
+                rep.count(&format!("near_tie_inputs_n{}", n), 1);
+                break;
+            }
+        }
+    });
+    rep.merge(r);
+    rep.require("near_tie_inputs", 500);
     let per_n = ctx.sz(400, 60000);
     let sizes: Vec<usize> = (1..=10).map(|k| 1usize << k).collect();
     let r = par_for(sizes.len() * 8, ncpu(), |job, rep| {
